@@ -353,7 +353,7 @@ func checkC08(p *core.Program, r *core.Report) {
 		r.Check(okStore, "O8.2", name+": digest stored into the public-input field", p.Pos(hashEv.Instr.Pos()), "SetBytes(hash) into the field wired to the circuit's public input", storeWhy)
 	}
 	r.Floor("hash helpers", 2)
-	r.Floor("layout parts", 7)
+	r.Floor("layout parts", 6)
 	// O8.3
 	checkGenTestParams(p, r, helpers)
 	// O8.4: "parameters emitted by the generator are provable" also rests on the generator's tree and on Poseidon
